@@ -801,7 +801,7 @@ func checkC14(c *Ctx, r *Report) {
 	guards := c.expandGuards(guardsOfInstr(rm), fr, 0)
 	r.Count("guards_examined", len(guards))
 	var gdesc []string
-	var haveDir, havePrefix, haveShape, haveAge bool
+	var haveDir, havePrefix, haveShape, haveAge, haveParse, haveLen bool
 	var entryPath string
 	var prefixNode *PNode
 	pathArg := c.prov(rm.Common().Args[0], fr)
@@ -830,9 +830,23 @@ func checkC14(c *Ctx, r *Report) {
 			}
 		}
 		if ok, why := c.isSuffixShapeGuard(g, gfr); ok {
-			haveShape = true
-			gdesc[len(gdesc)-1] += " [suffix-shape:" + why + "]"
+			if strings.HasPrefix(why, "time.Parse") {
+				// time.Parse also accepts a fractional-second tail the layout does not mention ("<ts>.5", "<ts>,123"):
+				// on its own it does not establish "exactly 14 digits"
+				haveParse = true
+				gdesc[len(gdesc)-1] += " [parses as a timestamp: " + why + "]"
+			} else {
+				haveShape = true
+				gdesc[len(gdesc)-1] += " [suffix-shape:" + why + "]"
+			}
 		}
+		if c.isLen14Guard(g, gfr) {
+			haveLen = true
+			gdesc[len(gdesc)-1] += " [remainder has the layout's length]"
+		}
+	}
+	if haveParse && haveLen {
+		haveShape = true
 	}
 	key := "C14.guards:" + fname(ret) + "→os.Remove"
 	pathS := "path: " + strings.Join(gdesc, " → ") + " → os.Remove"
@@ -842,7 +856,9 @@ func checkC14(c *Ctx, r *Report) {
 	if !havePrefix {
 		r.Fail(key+"#prefix", c.instrPos(rm), "removal is not dominated by a prefix test on FileName+\".\"; %s", pathS)
 	}
-	if !haveShape {
+	if !haveShape && haveParse {
+		r.Fail(key, c.instrPos(rm), "the suffix test is time.Parse alone, which also accepts a fractional-second tail after the seconds (\"<ts>.5\", \"<ts>,123\"): files such as name.20060102150405.5 that this appender cannot have produced are deleted (no length test against the 14-character layout); %s", pathS)
+	} else if !haveShape {
 		r.Fail(key, c.instrPos(rm), "missing suffix-shape guard: any file whose name merely starts with FileName+\".\" (name.wf.<ts>, name.bak, name.1.gz) is deleted; %s", pathS)
 	}
 	if haveDir && havePrefix && haveShape {
@@ -931,7 +947,7 @@ func (c *Ctx) isSuffixShapeGuard(g Guard, fr *Frame) (bool, string) {
 			if re, err := regexp.Compile(pat); err == nil {
 				good := re.MatchString("20060102150405") || re.MatchString("app.log.20060102150405")
 				bad := false
-				for _, s := range []string{"wf.20060102150405", "bak", "1.gz", "2006010215040", "200601021504050", "2006010215040a", ""} {
+				for _, s := range []string{"wf.20060102150405", "bak", "1.gz", "2006010215040", "200601021504050", "2006010215040a", "20060102150405.5", "20060102150405,123", ""} {
 					if re.MatchString(s) && !strings.Contains(pat, `\.`) {
 						bad = true
 					}
@@ -951,6 +967,35 @@ func (c *Ctx) isSuffixShapeGuard(g Guard, fr *Frame) (bool, string) {
 		}
 	}
 	return false, ""
+}
+
+// isLen14Guard: the edge establishes len(remainder) == len(producer layout).
+func (c *Ctx) isLen14Guard(g Guard, fr *Frame) bool {
+	b, ok := g.Cond.(*ssa.BinOp)
+	if !ok {
+		return false
+	}
+	eq := (b.Op == token.EQL && g.Polarity) || (b.Op == token.NEQ && !g.Polarity)
+	if !eq {
+		return false
+	}
+	for _, pair := range [][2]ssa.Value{{b.X, b.Y}, {b.Y, b.X}} {
+		k, isK := constInt(pair[1])
+		if !isK || k != int64(len(producerLayout)) {
+			continue
+		}
+		call, isCall := pair[0].(*ssa.Call)
+		if !isCall {
+			continue
+		}
+		if bi, isB := call.Call.Value.(*ssa.Builtin); !isB || bi.Name() != "len" {
+			continue
+		}
+		if c.derivesFromEntryRemainder(c.prov(call.Call.Args[0], fr)) {
+			return true
+		}
+	}
+	return false
 }
 
 func (c *Ctx) derivesFromEntryRemainder(n *PNode) bool {
